@@ -5,68 +5,78 @@
    calls change nothing), C02 hand-over (message written together with the handshake).         *)
 EXTENDS DeliveryAbs, TraceCommon
 
-VARIABLES l, scen, poisoned, viol, garbage
-tvars == <<avars, l, scen, poisoned, viol, garbage>>
+VARIABLES l, scen, poisoned, viol, garbage, swait, fair
+tvars == <<avars, l, scen, poisoned, viol, garbage, swait, fair>>
+\* swait[c]: deliveries from other connections while c had a complete, well-formed message available (C06, second half, at
+\* socket level); judged only where "written" means "readable now" (fair = TRUE: the in-memory pipes; not the real-transport
+\* floods, where a message is logged before its bytes are sent)
 
 E == Rec[l]
 Flag(code) == Report(scen, code, l) /\ viol' = viol \cup {code}
 NoFlag == UNCHANGED viol
 Step(evname) == l <= NRec /\ E.ev = evname /\ l' = l + 1
-Skip(evname) == Step(evname) /\ UNCHANGED <<avars, scen, poisoned, garbage>> /\ NoFlag
+Skip(evname) == Step(evname) /\ UNCHANGED <<avars, scen, poisoned, garbage, swait, fair>> /\ NoFlag
 
-TInit == AInit /\ l = 1 /\ scen = 0 /\ poisoned = {} /\ viol = {} /\ garbage = {}
+TInit == AInit /\ l = 1 /\ scen = 0 /\ poisoned = {} /\ viol = {} /\ garbage = {} /\ swait = EmptyMap /\ fair = FALSE
 
 TReset == Step("reset") /\ scen' = E.scen /\ stype' = E.sock /\ conn' = {} /\ ident' = <<>> /\ pend' = <<>>
-          /\ cut' = <<>> /\ credit' = 0 /\ poisoned' = {} /\ garbage' = {} /\ NoFlag
+          /\ cut' = <<>> /\ credit' = 0 /\ poisoned' = {} /\ garbage' = {} /\ swait' = EmptyMap /\ fair' = Fld(E, "fair", FALSE) /\ NoFlag
 
-TAttachRet == Step("attach_ret") /\ UNCHANGED <<scen, poisoned, garbage>> /\ NoFlag /\
+TAttachRet == Step("attach_ret") /\ UNCHANGED <<scen, poisoned, garbage, swait, fair>> /\ NoFlag /\
    IF E.res = "ok" THEN DoAdmit(E.c, E.id) ELSE UNCHANGED avars
 
-TWrote == Step("peer_wrote") /\ UNCHANGED <<scen, poisoned, garbage>> /\ NoFlag /\ DoWrote(E.c, E.m)
+TWrote == Step("peer_wrote") /\ UNCHANGED <<scen, poisoned, garbage, swait, fair>> /\ NoFlag /\ DoWrote(E.c, E.m)
 
 \* raw bytes that are not a message the monitor understands: anything may follow on that connection
 TBytes == Step("peer_bytes") /\ garbage' = garbage \cup {E.c} /\ credit' = credit + 1
-          /\ UNCHANGED <<stype, conn, ident, pend, cut, scen, poisoned>> /\ NoFlag
+          /\ UNCHANGED <<stype, conn, ident, pend, cut, scen, poisoned, swait, fair>> /\ NoFlag
 
-TCut == Step("peer_cut") /\ UNCHANGED <<scen, poisoned, garbage>> /\ NoFlag /\
+TCut == Step("peer_cut") /\ UNCHANGED <<scen, poisoned, garbage, swait, fair>> /\ NoFlag /\
         DoCut(E.c, IF E.kind = "eof" THEN "eof" ELSE "err")
 
 Live(S) == S \ (poisoned \cup garbage)
-
-TRecvRet == Step("recv_ret") /\ UNCHANGED <<scen, garbage>> /\
-   IF E.res = "ok" THEN
-      LET src == Sources(E.m) IN
-      IF src # {} THEN LET c == CHOOSE x \in src : TRUE IN DoConsume(c) /\ UNCHANGED poisoned /\ NoFlag
-      ELSE IF garbage # {} THEN UNCHANGED <<avars, poisoned>> /\ NoFlag        \* cannot be judged: a peer sent raw bytes
-      ELSE IF Later(E.m) # {} THEN UNCHANGED avars /\ poisoned' = poisoned \cup Later(E.m) /\ Flag("C05/reordered-or-skipped")
-      ELSE IF Len(E.m) = 0 THEN UNCHANGED <<avars, poisoned>> /\ Flag("C07/rep-zero-frame-message")
-      ELSE UNCHANGED <<avars, poisoned>> /\ Flag("C05/duplicate-or-invented-or-modified")
-   ELSE IF E.res = "err" THEN
-      IF Live(Malformed) # {} THEN LET c == CHOOSE x \in Live(Malformed) : TRUE IN DoConsume(c) /\ UNCHANGED poisoned /\ NoFlag
-      ELSE IF credit > 0 THEN DoSpendCredit /\ UNCHANGED poisoned /\ NoFlag
-      ELSE IF DOMAIN cut # {} THEN UNCHANGED <<avars, poisoned>> /\ Flag("C16/error-repeated")   \* more than one error for one fault
-      ELSE UNCHANGED <<avars, poisoned>> /\ Flag("C05/unattributable-error")
-   ELSE UNCHANGED <<avars, poisoned>> /\ Flag("C03/panic-in-recv")
 
 \* malformed head messages may also be dropped silently: they never block what is behind them
 RECURSIVE DropMalformed(_, _)
 DropMalformed(t, s) == IF s # <<>> /\ ~WellFormed(t, Head(s)) THEN DropMalformed(t, Tail(s)) ELSE s
 
-TQuiescent == Step("quiescent") /\ UNCHANGED <<avars, scen, poisoned, garbage>> /\
+Ready(j) == j \in Live(conn) /\ j \notin DOMAIN cut /\ DropMalformed(stype, Pend(j)) # <<>>
+Served(c) == [j \in conn |-> IF j = c THEN 0 ELSE IF Ready(j) THEN Get(swait, j, 0) + 1 ELSE Get(swait, j, 0)]
+StarveBound == 4 * (Cardinality(conn) + 1)
+
+TRecvRet == Step("recv_ret") /\ UNCHANGED <<scen, garbage, fair>> /\
+   IF E.res = "ok" THEN
+      LET src == Sources(E.m) IN
+      IF src # {} THEN LET c == CHOOSE x \in src : TRUE IN
+           DoConsume(c) /\ UNCHANGED poisoned /\ swait' = Served(c)
+           /\ IF fair /\ garbage = {} /\ \E j \in conn : Served(c)[j] > StarveBound THEN Flag("C06/starved") ELSE NoFlag
+      ELSE IF garbage # {} THEN UNCHANGED <<avars, poisoned, swait>> /\ NoFlag        \* cannot be judged: a peer sent raw bytes
+      ELSE IF Later(E.m) # {} THEN UNCHANGED <<avars, swait>> /\ poisoned' = poisoned \cup Later(E.m) /\ Flag("C05/reordered-or-skipped")
+      ELSE IF Len(E.m) = 0 THEN UNCHANGED <<avars, poisoned, swait>> /\ Flag("C07/rep-zero-frame-message")
+      ELSE UNCHANGED <<avars, poisoned, swait>> /\ Flag("C05/duplicate-or-invented-or-modified")
+   ELSE IF E.res = "err" THEN
+      UNCHANGED swait /\
+      (IF Live(Malformed) # {} THEN LET c == CHOOSE x \in Live(Malformed) : TRUE IN DoConsume(c) /\ UNCHANGED poisoned /\ NoFlag
+      ELSE IF credit > 0 THEN DoSpendCredit /\ UNCHANGED poisoned /\ NoFlag
+      ELSE IF DOMAIN cut # {} THEN UNCHANGED <<avars, poisoned>> /\ Flag("C16/error-repeated")   \* more than one error for one fault
+      ELSE UNCHANGED <<avars, poisoned>> /\ Flag("C05/unattributable-error"))
+   ELSE UNCHANGED <<avars, poisoned, swait>> /\ Flag("C03/panic-in-recv")
+
+TQuiescent == Step("quiescent") /\ UNCHANGED <<avars, scen, poisoned, garbage, swait, fair>> /\
    IF Fld(E, "pending", "none") = "recv" /\ stype # "REQ"
       /\ \E c \in Live(Owing) : DropMalformed(stype, Pend(c)) # <<>>
    THEN Report(scen, "C06/parked-with-message-available", l) /\ Report(scen, "C05/message-never-delivered", l)
         /\ viol' = viol \cup {"C06/parked-with-message-available", "C05/message-never-delivered"}
    ELSE NoFlag
 
-TExpectWire == Step("expect_wire") /\ UNCHANGED <<avars, scen, poisoned, garbage>> /\
+TExpectWire == Step("expect_wire") /\ UNCHANGED <<avars, scen, poisoned, garbage, swait, fair>> /\
    IF E.ok THEN NoFlag ELSE Flag("C03/other-connection-disturbed")
-TPanic == Step("panic") /\ UNCHANGED <<avars, scen, poisoned, garbage>> /\ Flag("C03/panic")
-THarness == Step("harness_error") /\ UNCHANGED <<avars, scen, poisoned, garbage>> /\ Flag("harness/script-error")
+TPanic == Step("panic") /\ UNCHANGED <<avars, scen, poisoned, garbage, swait, fair>> /\ Flag("C03/panic")
+THarness == Step("harness_error") /\ UNCHANGED <<avars, scen, poisoned, garbage, swait, fair>> /\ Flag("harness/script-error")
 
 Ignored == {"observed", "peer_part", "attach_call", "attach_pending", "wire", "released", "recv_call", "recv_pending", "recv_dropped", "send_call",
             "send_ret", "send_pending", "send_dropped", "sub_call", "sub_ret", "sub_pending", "sub_dropped", "pipe", "end"}
-TIgnore == l <= NRec /\ E.ev \in Ignored /\ l' = l + 1 /\ UNCHANGED <<avars, scen, poisoned, garbage>> /\ NoFlag
+TIgnore == l <= NRec /\ E.ev \in Ignored /\ l' = l + 1 /\ UNCHANGED <<avars, scen, poisoned, garbage, swait, fair>> /\ NoFlag
 
 TNext == TExpectWire \/ TReset \/ TAttachRet \/ TWrote \/ TBytes \/ TCut \/ TRecvRet \/ TQuiescent \/ TPanic \/ THarness \/ TIgnore
 TSpec == TInit /\ [][TNext]_tvars
